@@ -171,5 +171,27 @@ Example scalar_examples :
   is_scalar FUEL [([68], SRef [68])] scalar_ty (SRef [68]) = Err VE_cycle /\
   is_scalar FUEL [] scalar_ty (SAll [SType 5; SType 5]) = Ok false /\
   is_string_array FUEL [] (SArr (SType 5)) = Ok true /\
-  is_string_array FUEL [] (SArr (SType 6)) = Ok false.
+  is_string_array FUEL [] (SArr (SType 6)) = Ok false /\
+  (* a type that contains itself through anyOf / allOf / oneOf (enum E { A(Box<E>) }, or two
+     definitions through each other) is refused as non-scalar: the model does not run out of
+     fuel, the code no longer overflows its stack (fix 97a0ad7) *)
+  is_scalar FUEL [([69], SAny [SRef [69]])] scalar_ty (SRef [69]) = Ok false /\
+  is_scalar FUEL [([69], SAll [SRef [69]])] scalar_ty (SAny [SRef [69]]) = Ok false /\
+  is_scalar FUEL [([69], SOne [SType 5; SRef [70]]); ([70], SOne [SType 6; SAny [SRef [69]]])] scalar_ty (SRef [69]) = Ok false /\
+  (* reached twice, but not through itself: still scalar *)
+  is_scalar FUEL [([69], SType 5)] scalar_ty (SOne [SRef [69]; SAny [SRef [69]]]) = Ok true.
 Proof. vm_compute. repeat split. Qed.
+
+(* a definition that is a lone anyOf / allOf of a reference to itself is refused
+   whatever the fuel (two levels are enough) *)
+Lemma direct_self_reference_refused n d chk f body :
+  lookup_def n d = Some body -> body = SAny [SRef n] \/ body = SAll [SRef n] ->
+  is_scalar (S (S f)) d chk (SRef n) = Ok false.
+Proof.
+  intros Hl Hb. unfold is_scalar.
+  assert (Hr : resolve_named (S (length d)) d [] None (SRef n) = Ok (Some n, body)).
+  { cbn [resolve_named mem_str]. rewrite Hl. destruct Hb as [-> | ->]; destruct (length d); reflexivity. }
+  cbn [is_scalar_path]. rewrite Hr. cbn [bind mem_str].
+  destruct Hb as [-> | ->]; cbn [is_scalar_path]; rewrite Hr; cbn [bind mem_str];
+    rewrite str_eqb_refl; reflexivity.
+Qed.
